@@ -140,14 +140,47 @@ def run(fn, script, period, phase, variant="rtl", perm_seed=None, reset_midway=F
     return obs
 
 
+class Hang(Exception):
+    pass
+
+
+_HANGS = [0]
+
+
+class watchdog:
+    """A simulation that does not finish within `seconds` is an observation too (the model's behaviours are finite)."""
+    def __init__(self, seconds):
+        self.seconds = seconds
+
+    def _fire(self, signum, frame):
+        raise Hang("simulation still running after %d s" % self.seconds)
+
+    def __enter__(self):
+        import signal
+        self.old = signal.signal(signal.SIGALRM, self._fire)
+        signal.alarm(self.seconds)
+
+    def __exit__(self, *exc):
+        import signal
+        signal.alarm(0)
+        signal.signal(signal.SIGALRM, self.old)
+        return False
+
+
 def replay_case(job):
     fn, script, expected, period, phase, seeds, variants = job
     out = []
     for variant in variants:
         for seed in seeds:
+            unit = ("fs", "ps", "ns", "us")[(seed or 0) % 4]
+            if _HANGS[0] >= 2:           # this worker has already reported hanging simulations: do not wait for more
+                return out
             try:
-                unit = ("fs", "ps", "ns", "us")[(seed or 0) % 4]
-                got = run(fn, script, period, phase, variant=variant, perm_seed=seed, unit=unit)
+                with watchdog(20):
+                    got = run(fn, script, period, phase, variant=variant, perm_seed=seed, unit=unit)
+            except Hang as e:
+                _HANGS[0] += 1
+                got = [("exception", "Hang", str(e))]
             except Exception as e:
                 got = [("exception", type(e).__name__, str(e)[:200])]
             if [tuple(o) for o in got] != [tuple(o) for o in expected]:
